@@ -53,7 +53,23 @@ def shards(tier, seed):
         out.append({'part': 'c', 'k': k, 'n': 2})
     for k in range(2):
         out.append({'part': 'd', 'k': k, 'n': 2})
-    return out
+    if tier == 'quick':
+        return out   # 12 real-process shards, the longest of them is the critical path: start them first
+    # thorough: 72 real-process shards that wait for the fork token (2 slots machine-wide): handing them all out first would park every
+    # worker on the token; one of them is started after every 4th interpreter shard instead
+    real = [s for s in out if s['part'] != 'b']
+    out = []
+    for i, s in enumerate(s for s in _b_shards(tier)):
+        if i % 4 == 0 and real:
+            out.append(real.pop(0))
+        out.append(s)
+    return out + real
+
+
+def _b_shards(tier):
+    n = len(LS.programs(tier))
+    nb = -(-n // PROG_CHUNK)
+    return [{'part': 'b', 'k': k, 'n': nb} for k in range(nb)]
 
 
 # --------------------------------------------------------------------------------------------- (a) parallel.range
